@@ -11,7 +11,7 @@ SCHEDULE_DEPENDENT = True
 RULE = ('one real ActiveObject under virtual (discrete-event) time; 1-4 concurrent timed sources created by post_fifo/'
         'post_lifo with period from {0.1, 0.25, 1, 7, 60} s, times from 0-6, deferred True/False/default, started at drawn '
         'instants (in a quarter of the runs before start_at); the timer threads, the consumer and the clients are interleaved by the seeded scheduler. "exact" stratum: '
-        'timers wake exactly on time (in 40% of the runs some handler invocations sleep for 0.5-6 periods: a chart that falls behind must not change what is posted); "jitter" stratum: every timer sleep is late by a drawn amount (injected fault). Oracle '
+        'timers wake exactly on time (in 40% of the runs some handler invocations sleep for 0.5-6 periods: a chart that falls behind must not change what is posted); "jitter" stratum: every timer sleep is late by a drawn amount (injected fault); in 35% of all runs the wall clock (time.time/datetime.now, not the monotonic clock behind sleep) is stepped back or forth by seconds to an hour while sources run (clock fault: must change nothing). Oracle '
         '(timer calendar): the virtual instants at which each source\'s thread appends to the queue are exactly t0 + k*p '
         '(k from 1 if deferred, from 0 if not) in the exact stratum, and never earlier than that and with gaps >= p in the '
         'jitter stratum; exactly n postings for times = n >= 1; for times = 0 exactly the calendar\'s count up to the horizon; '
@@ -19,7 +19,7 @@ RULE = ('one real ActiveObject under virtual (discrete-event) time; 1-4 concurre
         'time or an endless source; distinct = distinct (period, times, deferred, kind) sets per run.')
 ASSUMPTIONS = ['virtual time: computation takes no time, so the exact stratum demands exact instants',
                'horizon for endless sources: 3-40 periods, at most 600 simulated seconds']
-PROBES = ['endless_source', 'two_sources_alive']
+PROBES = ['endless_source', 'two_sources_alive', 'wall_clock_stepped_while_sources_run']
 PLAN = {
   'quick': {'strata': {'exact': 2500, 'jitter': 1500}, 'wall_s': 300, 'chunk': 50, 'min_conclusive': 800},
   'thorough': {'strata': {'exact': 70000, 'jitter': 40000}, 'wall_s': 900, 'chunk': 100, 'min_conclusive': 8000},
@@ -58,6 +58,12 @@ def generate(seed, stratum, tier):
         'sched': common.draw_sched(rng, grans=('sync', 'line'), expected_steps=1500, victims=['consumer'], policies=('sticky', 'pct', 'starve'))}
   if stratum == 'jitter':
     sc['jitter_us'] = rng.choice([[0, 1000], [0, 0, 50000], [200, 3000, 250000]])
+  if rng.random() < 0.35:
+    # clock fault: the wall clock (time.time(), datetime.now()) is stepped backwards or forwards while sources are
+    # running - by an operator, NTP or a suspended VM.  Sleeping is not affected by such steps, so the calendar is not either
+    span = maxp * rng.choice([1, 2, 4])
+    sc['wall_steps'] = [[int(rng.uniform(0.0, span) * 1e6), int(rng.choice([-3600.0, -2.5 * maxp, -0.5 * maxp, 3 * maxp, 3600.0]) * 1e6)]
+                        for _ in range(rng.randrange(1, 3))]
   if rng.random() < 0.4:
     # a slow chart: some handler invocations take 0.5-6 periods (the handler sleeps, holding no
     # lock), so the chart falls behind its timed sources; what the sources post must not change
@@ -72,6 +78,11 @@ def generate(seed, stratum, tier):
 def shrink_candidates(sc):
   if sc['objects'][0].get('react'):
     yield dict(sc, objects=[dict(sc['objects'][0], react={})])
+  if sc.get('wall_steps'):
+    yield {k: v for k, v in sc.items() if k != 'wall_steps'}
+    if len(sc['wall_steps']) > 1:
+      yield dict(sc, wall_steps=sc['wall_steps'][:1])
+      yield dict(sc, wall_steps=sc['wall_steps'][1:])
   cl = sc['clients']
   if len(cl) > 1:
     yield dict(sc, clients=cl[:1])
@@ -105,7 +116,10 @@ def calendar(src, horizon_us):
 def execute(sc, sched):
   res = RunResult()
   hor = sc.get('horizon_s')
-  run, sim, reason = aw.run_ao(sc, sched, max_steps=400000, horizon_s=hor)
+  def faults(sim):
+    if sc.get('wall_steps'):
+      sim.wall_steps = [tuple(x) for x in sc['wall_steps']]
+  run, sim, reason = aw.run_ao(sc, sched, max_steps=400000, horizon_s=hor, before_run=faults)
   try:
     ok = ac.base_judge(run, sim, reason, res)
     if ok and reason not in ('quiescent', 'horizon'):
@@ -128,6 +142,9 @@ def execute(sc, sched):
       sim.probe('endless_source')
     if alive2:
       sim.probe('two_sources_alive')
+    if sc.get('wall_steps') and any(any(s['t0_us'] <= at <= (calendar(s, int(hor * 1e6) if hor else None) or [s['t0_us']])[-1] for s in run.sources) for at, _d in sc['wall_steps']):
+      sim.probe('wall_clock_stepped_while_sources_run')
+      sim.fault('wall_clock_step')
     if alive2 or any(s['times'] in (0, None) for s in run.sources):
       res.nontrivial.append(hash(kinds))
     if res.outcome == 'violation' or sched.get('seed', 0) % 499 == 0:
